@@ -3,7 +3,8 @@
 h_resolve : longest-prefix, per-role resolution of StorageMapping (role presence decided lazily when the code reads it).
 h_move    : an index whose entries map to caches/remotes by key prefix is saved, collected, pushed (first round with symbolic
             upload failures, then a clean retry), fetched into an empty cache and checked out again.
-cube (h_move): mapping (0: one prefix; 1: `x` has its own remote; 2: `x` has its own cache and remote), rkind ("remote"|"base")
+cube (h_move): mapping (0: one prefix; 1: `x` has its own remote; 2: `x` has its own cache and remote; 3: two disjoint prefixes `x`
+               and `y` - no root prefix - that designate the SAME cache and remote), rkind ("remote"|"base")
 """
 import hashlib
 
@@ -92,7 +93,8 @@ def h_resolve(q0: int, q1: int, ql: int, r0: int, r1: int, rl: int, s0: int, s1:
 # ---------------------------------------------------------------------------------------------------------
 MAPPING = int(cube("mapping", 0))
 RKIND = cube("rkind", "remote")
-FILES = {"x/a": b"XA", "x/s/b": b"", "y": b"XA"}  # empty file + duplicate content across datasets
+FILES = {"x/a": b"XA", "x/s/b": b"", "y": b"XA" if MAPPING != 3 else b"Y-own"}  # empty file + duplicate content across datasets
+# (with the disjoint-prefix mapping `y` has content of its own, so that its object is reachable only through its own prefix)
 
 
 def _md5(b):
@@ -124,9 +126,14 @@ def h_move(pa: bool, pb: bool, py: bool, f0: bool, f1: bool, f2: bool, f3: bool)
             mk_remote = (lambda n: env.remote_odb(n)) if RKIND == "remote" else (lambda n: env.base_odb("remote_" + n))
             C0, R0 = env.local_odb("c0"), mk_remote("r0")
             C1 = env.local_odb("c1") if MAPPING == 2 else C0
-            R1 = mk_remote("r1") if MAPPING >= 1 else R0
+            R1 = mk_remote("r1") if MAPPING in (1, 2) else R0
 
         def storage_map(idx, caches):
+            if MAPPING == 3:
+                for pre in (("x",), ("y",)):
+                    idx.storage_map.add_cache(ObjectStorage(pre, caches[0]))
+                    idx.storage_map.add_remote(ObjectStorage(pre, R0))
+                return
             idx.storage_map.add_cache(ObjectStorage((), caches[0]))
             idx.storage_map.add_remote(ObjectStorage((), R0))
             if MAPPING >= 1:
